@@ -52,3 +52,12 @@ package cmd
 //@   safe
 //@ func ti/cmd.printAllClasses
 //@   safe
+
+//@ # ---- C24: a caller entry shows the recorded call site ----
+//@ # inside the loop over the recorded call points every printed "method" / "class" / "call point"
+//@ # line carries the fields of that point (enclosing method and class independently of each other)
+//@ func ti/cmd.printLlmNavDetail
+//@   sitesonly
+//@   callsite[C24] Println strings.HasPrefix(unbox(a_a[0], "string"), "  - method: ") ==> unbox(a_a[0], "string") == "  - method: " + ite(point.CallerMethod != "", point.CallerMethod, "top level")
+//@   callsite[C24] Println strings.HasPrefix(unbox(a_a[0], "string"), "    - class: ") ==> unbox(a_a[0], "string") == "    - class: " + ite(point.CallerClass != "", point.CallerClass, "none")
+//@   callsite[C24] Println strings.HasPrefix(unbox(a_a[0], "string"), "    - call point: ") ==> unbox(a_a[0], "string") == "    - call point: " + point.Point
